@@ -44,7 +44,7 @@ ASSUMPTIONS = ['arguments of two-operand nets have equal bitwidth and mux branch
                'designs of part (b) are limited to widths <= 33 (Wallace trees of wider multipliers make '
                'Simulation of the gate netlist too slow for the budget); theorems are for all widths']
 
-SHAPE_MAX_NETS = 3000   # Coq shapeb is quadratic; larger blocks are checked by its Python mirror only
+SHAPE_MAX_NETS = 1500   # Coq shapeb is quadratic; larger blocks are checked by its Python mirror only
 OPS = ['add', 'sub', 'mul', 'lt', 'gt', 'eq']
 OPCODE = {o: i for i, o in enumerate(OPS)}
 
@@ -422,7 +422,7 @@ def build_case(ctx, i):
 
 
 def part_b(ctx):
-    n = 36 if ctx.tier == 'quick' else 400
+    n = 30 if ctx.tier == 'quick' else 400
     spec_exprs, spec_cases = [], []
     shape_exprs, shape_cases = [], []
     model_exprs, model_cases = [], []
@@ -540,7 +540,16 @@ def part_b(ctx):
                         break
                 ctx.count('bit_invariant_wires_checked', 'wires', len(full_orig[0]) if full_orig else 0)
                 if bad:
-                    ctx.spec_violation('synthesize:bit-invariant',
+                    sig = 'synthesize:bit-invariant'
+                    wbad = block.wirevector_by_name.get(bad[1])
+                    drv = [x for x in block.logic if x.dests and x.dests[0] is wbad]
+                    if (drv and drv[0].op == '-' and isinstance(bad[3], int)
+                            and len(wbad) == len(drv[0].args[0]) + 1 and (bad[2] ^ bad[3]) == 1 << (len(wbad) - 1)):
+                        sig = 'synthesize:sub-top-bit'
+                    elif (isinstance(wbad, pyrtl.Register) and bad[0] == 0 and wbad not in regmap
+                          and wbad.reset_value is not None and bad[3] == 0):
+                        sig = 'synthesize:reset-value-dropped'
+                    ctx.spec_violation(sig,
                                        'wire %s of the original design is not spelled by its synthesized bits at cycle %d: '
                                        'expected %s, bits give %s' % (bad[1], bad[0], bad[2], bad[3]), rep)
 
